@@ -252,6 +252,11 @@ def relevant(prop, spec, unit, fail):
     nfns = ucfg.get('not_fns')
     if nfns and any(re.fullmatch(p, fail['fn']) for p in nfns):
         return False
+    # obligations owned by ANOTHER property although they sit in a function this property also relies on (e.g. the C03 restart condition
+    # inside HtmlFilterBodyAction::filter, which C04 and C15 use for their own clauses)
+    nobl = ucfg.get('not_obligations')
+    if nobl and any(re.search(p, fail.get('text') or '') for p in nobl):
+        return False
     return True
 
 
@@ -327,7 +332,7 @@ def check_property(prop, tier='quick'):
                 continue
             obligations += 1
             ok_here = fb['success']
-            if not ok_here and ucfg.get('kinds'):
+            if not ok_here and (ucfg.get('kinds') or ucfg.get('not_obligations')):
                 # a property restricted to some kinds of obligations (e.g. C07: safety / termination) counts a function as discharged
                 # when none of ITS failures is of a relevant kind (the other kinds are decided under the property that owns them)
                 mine = [f for f in fails if strip_mod(f['fn']) == strip_mod(nm) or f['fn'] == nm]
